@@ -299,11 +299,13 @@ pub fn migrate_unbond_wait_lists(
 
         for res in old_unbond_wait_list_entries {
             let (key, amount) = res?;
-            let unbond_wait_entity = UnbondWaitEntity {
-                bsei_amount: amount,
-                stsei_amount: Uint128::zero(),
-            };
-            new_unbond_wait_list.save(&key, &unbond_wait_entity)?;
+            // the old wait list holds bSei requests only: add them to whatever the account has
+            // requested in the same batch since the upgrade instead of replacing that entry
+            new_unbond_wait_list.update(&key, |requested| -> StdResult<UnbondWaitEntity> {
+                let mut entity = requested.unwrap_or_default();
+                entity.bsei_amount += amount;
+                Ok(entity)
+            })?;
             removed_keys.push(key);
             num_migrated_entries += 1;
         }
